@@ -310,6 +310,23 @@ fn vrecord(args: &Args) {
                           "error_kinds": k, "seed_documents": docs.len()}));
 }
 
+/// development aid: c14 load < file   -> JSON of the loaded stream, validator verdict
+fn load_cmd() {
+    use std::io::Read;
+    let mut v = vec![];
+    std::io::stdin().read_to_end(&mut v).unwrap();
+    match guarded(|| succinctly::yaml::YamlIndex::build(&v).map(|i| i.root(&v).to_json())) {
+        Ok(Ok(j)) => println!("json: {j}"),
+        Ok(Err(e)) => println!("build error: {e}"),
+        Err(p) => println!("PANIC: {p}"),
+    }
+    match guarded(|| validate(&v)) {
+        Ok(Ok(())) => println!("validate: ok"),
+        Ok(Err(e)) => println!("validate: {} at {}", e.kind, e.position),
+        Err(p) => println!("validate PANIC: {p}"),
+    }
+}
+
 fn main() {
     let args = Args::parse();
     silence_panics();
@@ -317,6 +334,7 @@ fn main() {
         Some("replay") if args.pos.len() >= 3 => replay(&args),
         Some("schema") if args.pos.len() >= 3 => schema(&args),
         Some("render") if args.pos.len() >= 2 => render_cmd(&args),
+        Some("load") => load_cmd(),
         Some("vrecord") if args.pos.len() >= 3 => vrecord(&args),
         _ => die("usage: c14 replay|schema|render|vrecord ..."),
     }
